@@ -14,7 +14,7 @@
      5 OverflowError from math.ldexp                   (range_around_float)
      6 ValueError from SortedList.remove               (_do_adjust_range)
      7 assert count > 0                                (prep_inserts_at_index) *)
-From Coq Require Import ZArith List Bool.
+From Coq Require Import ZArith List Bool Sorted.
 Import ListNotations.
 Require Import Grist.Lib.Fl64.
 Open Scope Z_scope.
@@ -357,8 +357,7 @@ Definition check (orig keys : list fl) (adj : list (Z * fl)) (ins : list fl) : b
 
 Definition positions_after (orig : list fl) (adj : list (Z * fl)) (ins : list fl) : list fl :=
   sort_by flt (apply_adj orig adj ++ ins).
-Definition strictly_sorted (l : list fl) : Prop :=
-  forall i j, (i < j < length l)%nat -> Flt (nth i l FNaN) (nth j l FNaN).
+Definition strictly_sorted (l : list fl) : Prop := StronglySorted Flt l.
 Definition all_finite (l : list fl) : Prop := Forall (fun x => is_finite x = true) l.
 Fixpoint remove_nth (i : nat) (l : list fl) : list fl :=
   match l, i with
@@ -367,15 +366,15 @@ Fixpoint remove_nth (i : nat) (l : list fl) : list fl :=
   | x :: t, S j => x :: remove_nth j t
   end.
 
-(* One step of a table's history as the engine drives it.  Adding rows and moving rows (an update of the
-   position of existing rows: new positions are prepared against the current list, then the old positions
-   disappear) use whatever prepare_inserts returned, here any result satisfying Spec; removing rows just
-   drops positions. *)
+(* One step of a table's history as the engine drives it.  Adding rows uses whatever prepare_inserts
+   returned, here any result satisfying Spec; removing rows just drops positions.  Moving rows (an update of
+   the position of existing rows) is an addition followed by a removal: column.py prepares the new positions
+   against the current list, which still contains the moved rows, the adjustments are applied, and then the
+   moved rows' old (possibly adjusted) positions disappear when their new positions are set. *)
 Inductive step : list fl -> list fl -> Prop :=
-| step_add : forall s keys adj ins, Spec s keys adj ins -> step s (positions_after s adj ins)
-| step_remove : forall s i, step s (remove_nth i s)
-| step_move : forall s keys adj ins i, Spec s keys adj ins ->
-    step s (positions_after s adj ins) -> step s (positions_after s adj ins).
+| step_add : forall s keys adj ins, Forall (fun x => is_nan x = false) keys -> Spec s keys adj ins ->
+    step s (positions_after s adj ins)
+| step_remove : forall s i, step s (remove_nth i s).
 Inductive reachable : list fl -> Prop :=
 | reach_empty : reachable []
 | reach_step : forall s s', reachable s -> step s s' -> reachable s'.
@@ -387,3 +386,57 @@ Definition model_add (s : list fl) (keys : list fl) : option (list fl) :=
   | Ok (adj, ins) => if check s keys adj ins then Some (positions_after s adj ins) else None
   | Err _ => None
   end.
+
+(* ---------------------------------------------------------------------------------------------- *)
+(* Interface for the generated correspondence cases: floats travel as 64-bit patterns. *)
+
+Fixpoint list_eqb {A} (eqb : A -> A -> bool) (l m : list A) : bool :=
+  match l, m with
+  | [], [] => true
+  | x :: l', y :: m' => eqb x y && list_eqb eqb l' m'
+  | _, _ => false
+  end.
+Definition zpair_eqb (p q : Z * Z) : bool := (fst p =? fst q) && (snd p =? snd q).
+
+(* (error code or 0, adjustments, new positions) *)
+Definition outcome : Type := (Z * list (Z * Z) * list Z)%type.
+Definition outcome_eqb (a b : outcome) : bool :=
+  let '(c1, a1, i1) := a in
+  let '(c2, a2, i2) := b in
+  (c1 =? c2) && list_eqb zpair_eqb a1 a2 && list_eqb Z.eqb i1 i2.
+Definition run_bits (orig keys : list Z) : outcome :=
+  match prepare_inserts_model (map decode orig) (map decode keys) with
+  | Ok (a, i) => (0, map (fun p => (fst p, encode (snd p))) a, map encode i)
+  | Err c => (c, [], [])
+  end.
+(* a case: existing positions, requested positions, what relabeling.prepare_inserts did *)
+Definition agree_bits (c : list Z * list Z * outcome) : bool :=
+  let '(o, k, e) := c in outcome_eqb (run_bits o k) e.
+(* the certified checker on the implementation's result *)
+Definition check_bits (c : list Z * list Z * outcome) : bool :=
+  let '(o, k, (code, a, i)) := c in
+  (code =? 0) &&
+  check (map decode o) (map decode k) (map (fun p => (fst p, decode (snd p))) a) (map decode i).
+
+(* primitive operations: (opcode, a, b, n, expected patterns) *)
+Definition op_bits (c : Z * Z * Z * Z * list Z) : bool :=
+  let '(op, a, b, n, e) := c in
+  let x := decode a in
+  let y := decode b in
+  let out :=
+    match op with
+    | 0 => [encode (fadd x y)]
+    | 1 => [encode (fsub x y)]
+    | 2 => [encode (fmul x y)]
+    | 3 => [encode (fdiv x y)]
+    | 4 => [encode (of_Z n)]
+    | 5 => [encode (prevfloat x)]
+    | 6 => [encode (nextfloat x)]
+    | 7 => [if flt x y then 1 else 0; if fle x y then 1 else 0; if feq x y then 1 else 0]
+    | 8 => map encode (get_range x y n)
+    | 9 => match range_around_float x n with Ok r => [encode (fst r); encode (snd r)] | Err _ => [] end
+    | 10 => [encode (fadd x (of_Z n)); encode (fmul x (of_Z n)); encode (fdiv x (of_Z n))]
+    | 11 => [encode (decode a)]
+    | _ => []
+    end in
+  list_eqb Z.eqb out e.
